@@ -518,7 +518,7 @@ missed at first. What was changed:
 C03o (query strings were decodable pair by pair: `q=1&d=100%` and `n=a;b&q=1` are among them
 now - a neighbouring pair that cannot be decoded takes nothing away from the parameter a flow
 asks for; on the unchanged tree that alarmed for URLs that do not parse as a whole, where the
-fallback of the earlier repair `2a196b5` dropped every parameter: corrected, fix `d785a5b`),
+fallback of the earlier repair `2a196b5` dropped every parameter: corrected, fix `477a406`),
 C04o (flows had at most a dozen connections per direction and listed the connection from the
 stream's start first: one flow in five has 6-9 request filters, one in three lists the entry
 connection anywhere among the others; the order of the others - the order of a fan-out -
